@@ -103,6 +103,46 @@ def run(ctx):
         rep.check(got_phase.get(v) == want, "C04.R7", "sort_key:%s:phase" % v, "phase %d" % want,
                   "sort_key(%s) has phase %s, documented order requires %d (instances before skeleton, deletes before upserts, attachments last)" % (v, got_phase.get(v), want), site=sk.loc())
 
+    # ---- R8 cascade re-emission (sibling rule between appliers and the differ)
+    rep.rule("C04.R8", "A5 sibling: an op whose applier cascades to an attachment, emitted by the differ for an element that the same "
+                       "diff re-upserts, must be accompanied by a re-emission of that attachment")
+    ap_fn = prog.fn(TP + "apply_op_to_state")
+    asw = enum_switches(ap_fn, W)
+    cascading = {}
+    if asw:
+        bb, arms, ow, _ = asw[0]
+        targets = set(arms.values())
+        for vname, tgt in arms.items():
+            if vname in ("SetAttachment", "OpenPortal", "UpsertWarpInstance", "DeleteWarpInstance"):
+                continue
+            reach = ap_fn.reachable([tgt], avoid_blocks=[x for x in targets if x != tgt])
+            callees = {ap_fn.callee_of(ap_fn.blocks[b]["t"]) for b in reach if ap_fn.blocks[b]["t"]["t"] == "call"}
+            arm_tree, _ = tree(prog, [prog.fns[c] for c in callees if c in prog.fns]) if callees else ([], set())
+            m_ = set(mod_set(arm_tree, GS)) & {"node_attachments", "edge_attachments"}
+            if m_:
+                cascading[vname] = sorted(m_)
+    rep.check(set(cascading) == {"DeleteNode", "DeleteEdge"}, "C04.R8", "cascading-ops", "ops with an attachment mini-cascade: %s" % cascading,
+              "set of ops whose applier cascades to attachments changed: %s (confirmed: DeleteNode, DeleteEdge)" % cascading, site=ap_fn.loc())
+    partner = {"DeleteEdge": "UpsertEdge", "DeleteNode": "UpsertNode"}
+    diff_fns, _ = tree(prog, [prog.fn(TP + "diff_state")])
+    for f in diff_fns:
+        if not f.id.startswith(TP):
+            continue
+        heads = loop_heads(f)
+        sa = agg_blocks(f, W, "SetAttachment")
+        for dname in cascading:
+            for d in agg_blocks(f, W, dname):
+                ups = agg_blocks(f, W, partner[dname])
+                w = f.path([d], ups, avoid_blocks=heads)
+                if w is None:
+                    rep.ok("C04.R8", "cascade:%s:%s@%s" % (f.name, dname, "removed-element"), "emitted only for an element that is not re-upserted in the same iteration", site=f.loc(f.block_line(d)))
+                    continue
+                leak = f.path([d], heads + f.return_blocks(), avoid_blocks=sa)
+                rep.check(leak is None, "C04.R8", "cascade:%s:%s-then-%s" % (f.name, dname, partner[dname]),
+                          "the cascaded attachment is re-emitted",
+                          "%s emits %s and then %s for the same element without re-emitting its attachment: replay's %s drops the attachment (%s) that the live state keeps, so "
+                          "the patch does not reproduce the post-state" % (f.name, dname, partner[dname], dname, cascading[dname]), site=f.loc(f.block_line(d)))
+
     # ---- R2
     ao = prog.fn(TP + "apply_ops_to_state")
     tr, ext = tree(prog, [ao])
